@@ -50,6 +50,7 @@ func checkC05(c *Ctx) {
 	}
 	c.Floor["R05.2"] = 5
 	c.Floor["R05.3"] = 3
+	c.Floor["R05.10"] = 30
 }
 
 // c05Keys: R05.1 and R05.5 on serializeAttrs.
